@@ -86,8 +86,14 @@ func verifyLemma(P *Program, C *Contracts, l *Lemma) *Unit {
 				results = append(results, v)
 			}
 			penv := fr.contractEnv(c, fn, args, results, st, st)
+			penv.atCallSite = true
 			for _, en := range c.Ensures {
-				u.assert(penv.eval(en.Expr).S)
+				skip := false
+				penv.skip = &skip
+				f := penv.eval(en.Expr).S
+				if !skip {
+					u.assert(f)
+				}
 			}
 		}
 	}
